@@ -13,6 +13,8 @@ func main() {
 	switch os.Args[1] {
 	case "seq":
 		seqMain(os.Args[2:])
+	case "loctext":
+		locTextMain(os.Args[2:])
 	default:
 		fmt.Fprintf(os.Stderr, "unknown driver %q\n", os.Args[1])
 		os.Exit(2)
